@@ -51,6 +51,17 @@ type docSpec struct {
 	// from the edge) inside the 72 pt band in user units *and* in physical points,
 	// and the body (>= 100 units) outside both, so no case becomes borderline
 	UserUnit float64
+	// Ghost (0 = none): an additional, unreadable page stands at this 1-based
+	// position of the file; the logical pages keep their content and follow it
+	Ghost int
+}
+
+// phys maps a logical 1-based page number to the page number in the file.
+func (d *docSpec) phys(p int) int {
+	if d.Ghost > 0 && p >= d.Ghost {
+		return p + 1
+	}
+	return p
 }
 
 func (d *docSpec) feat(f string) { d.Features[f] = true }
@@ -521,6 +532,11 @@ func render(d *docSpec, r *rand.Rand) ([][]item, []byte) {
 		for _, it := range its {
 			pages[p].Items = append(pages[p].Items, it.SimpleItem)
 		}
+	}
+	if d.Ghost > 0 {
+		g := d.Ghost - 1
+		ghost := pdfw.SimplePage{W: 612, H: 792, Unreadable: true}
+		pages = append(pages[:g:g], append([]pdfw.SimplePage{ghost}, pages[g:]...)...)
 	}
 	return per, pdfw.SimplePDF(pages)
 }
